@@ -49,6 +49,7 @@ func writeServerText(conn net.Conn, payload []byte) error {
 func sendHeartbeat(ctx context.Context, conn net.Conn) error {
 	simhook.Enter("sub.hb")
 	defer simhook.Exit()
+	simhook.SelectLoop()
 	timeTicker := time.NewTicker(time.Second * 4)
 	defer timeTicker.Stop()
 
